@@ -3,7 +3,7 @@ import os, subprocess, json, re, sys, collections, shutil
 from common import *
 
 NZ_RE = re.compile(r'8000000000000000')
-EXPECT_THEOREMS = 17
+EXPECT_THEOREMS = 25
 
 
 def nz(l):
@@ -73,7 +73,8 @@ def classify_codec_mismatch(xh, printed, yh):
         mid, ulp = (x + y) / 2, abs(y - x)
         beyond = (t - mid) if y > x else (mid - t)       # >= 0: on y's side of the boundary
         if 0 <= beyond <= ulp / 64:
-            return 'codec:boundary-tie-round-trip'
+            # the known defect is at the UPPER boundary (|y| > |x|); the same thing at the lower boundary is a different defect
+            return 'codec:boundary-tie-round-trip' if abs(y) > abs(x) else 'codec:lower-boundary-tie-round-trip'
     except Exception:
         pass
     return 'codec:g_fmt-strtod-not-exact'
@@ -332,10 +333,15 @@ def run(ck):
         gdir = ei = None
     ck.log((out.strip() or err.strip())[-400:])
     translator_ok = rc == 0
+    if translator_ok:
+        rc, out, err = sh([sys.executable, os.path.join(VERIF, 'translators', 'gen_writer_c03.py'), REPO,
+                           os.path.join(LEAN, 'MpVerif', 'Gen', 'C03Writer.lean'), os.path.join(BUILD, 'tr_c03')], timeout=300)
+        ck.log((out.strip() or err.strip())[-400:])
+        translator_ok = rc == 0
     proof_ok, failing = False, []
     if translator_ok:
         proof_ok, failing = ck.proof_stage('MpVerif.C03.Props', 'MpVerif/C03/Props.lean', 'C03_',
-                                            ['MpVerif/C03/*.lean', 'MpVerif/Gen/OpcodesW.lean'], expect_min=EXPECT_THEOREMS)
+                                            ['MpVerif/C03/*.lean', 'MpVerif/Gen/OpcodesW.lean', 'MpVerif/Gen/C03Writer.lean'], expect_min=EXPECT_THEOREMS)
         ck.log('proof stage: ok=%s failing=%s' % (proof_ok, failing[:8]))
         if ck.tier == 'thorough' and proof_ok:
             bad = ck.leanchecker(['MpVerif.C03.Props'])
@@ -344,7 +350,7 @@ def run(ck):
                 proof_ok = False
     else:
         failing = ['translator: ' + (out + err).strip()[-400:]]
-        ck.cov.update({'obligations': EXPECT_THEOREMS, 'discharged': 0, 'checker_cmd': 'translators/gen_opcodes_c03.py failed'})
+        ck.cov.update({'obligations': EXPECT_THEOREMS, 'discharged': 0, 'checker_cmd': 'translators/gen_opcodes_c03.py / gen_writer_c03.py failed'})
 
     # ------------------------------------------------------------ implementation run
     try:
